@@ -4,7 +4,9 @@ Some rules need the value a formatting/decoding fragment produces for each *clas
 negative one, an already formatted string, a missing value ...).  The fragment is read from the ast and its expressions
 are folded with the constant folder on one representative per class; statements supported: assignments (names, tuple
 targets, augmented), if/elif/else, try/except (an exception raised while folding selects the handler that names it),
-`name.append(x)` / `name.extend(x)` on local lists, for-loops over folded iterables, return/continue/break.  Anything
+`name.append(x)` / `name.extend(x)` on local lists, for-loops over folded iterables, return/continue/break, `raise` of a builtin
+exception type, `with` over a rule-supplied context stub, calls of rule-supplied callables as statements, nested `def` (a closure
+evaluated the same way), `match` over literal / capture / fixed-length sequence patterns.  Anything
 else stops the evaluation with Unknown - the rule then reports 'not evaluable', never a verdict.  No code of the
 repository is imported or executed: only literals, operators and a fixed table of builtins are interpreted.
 """
@@ -110,22 +112,35 @@ BASE = {
 }
 
 
+_EXC = {n: getattr(__import__("builtins"), n) for n in ("ValueError", "KeyError", "IndexError", "TypeError", "LookupError", "ArithmeticError", "ZeroDivisionError", "AttributeError", "RuntimeError", "NotImplementedError", "AssertionError", "StopIteration", "OverflowError", "UnicodeError", "OSError", "FileNotFoundError", "Exception")}
+
+
 class BlockEval:
-    def __init__(self, repo, module: str, env: Optional[Dict[str, Any]] = None, max_steps: int = 2000):
+    def __init__(self, repo, module: str, env: Optional[Dict[str, Any]] = None, max_steps: int = 2000, world: Optional[Dict[str, Any]] = None):
+        """`world` (optional): rule-supplied stand-ins for global names (Enum classes, constructors, module functions); they are
+        visible in the fragment *and* while module-level constants the fragment reads are folded (see Folder)."""
         self.repo, self.module = repo, module
+        self.world: Dict[str, Any] = dict(world or {})
         self.env: Dict[str, Any] = dict(BASE)
+        self.env.update(self.world)
         self.env.update(env or {})
         self.steps = 0
         self.max_steps = max_steps
         self.trace: List[ast.stmt] = []
+        self._handling: List[BaseException] = []
 
     # ---- expressions ---------------------------------------------------------------------------
     def fold(self, e: ast.AST) -> Any:
         e2 = ast.fix_missing_locations(_Rewrite().visit(copy.deepcopy(e)))
+        f = Folder(self.repo, self.module, self.env, world=self.world)
         try:
-            return Folder(self.repo, self.module, self.env).fold(e2)
+            return f.fold(e2)
         except NotConst as ex:
             raise Unknown(f"`{ast.unparse(e)[:60]}`: {ex}")
+        finally:
+            for k in getattr(f, "_walrus", ()):  # `if (m := table.get(k)) is not None:` binds m for the statements that follow
+                if k in f.local:
+                    self.env[k] = f.local[k]
 
     # ---- statements ----------------------------------------------------------------------------
     def run(self, block: Sequence[ast.stmt]) -> Tuple[str, Any]:
@@ -149,6 +164,19 @@ class BlockEval:
             self.env[t.id] = v
         elif isinstance(t, (ast.Tuple, ast.List)):
             vals = list(v)
+            star = [i for i, e in enumerate(t.elts) if isinstance(e, ast.Starred)]
+            if len(star) == 1:  # a, *rest, z = vals
+                i, after = star[0], len(t.elts) - star[0] - 1
+                if len(vals) < len(t.elts) - 1:
+                    raise ValueError(f"not enough values to unpack (expected at least {len(t.elts) - 1}, got {len(vals)})")
+                for a, b in zip(t.elts[:i], vals[:i]):
+                    self._assign(a, b)
+                self._assign(t.elts[i].value, vals[i : len(vals) - after])
+                for a, b in zip(t.elts[i + 1 :], vals[len(vals) - after :]):
+                    self._assign(a, b)
+                return
+            if star:
+                raise Unknown(f"assignment target `{ast.unparse(t)[:40]}`")
             if len(vals) != len(t.elts):
                 raise ValueError("unpack")
             for a, b in zip(t.elts, vals):
@@ -183,8 +211,14 @@ class BlockEval:
                 name = type(ex).__name__
                 for h in st.handlers:
                     types = [] if h.type is None else ([ast.unparse(t).split(".")[-1] for t in h.type.elts] if isinstance(h.type, ast.Tuple) else [ast.unparse(h.type).split(".")[-1]])
-                    if h.type is None or name in types or "Exception" in types or "BaseException" in types:
-                        self._block(h.body)
+                    if h.type is None or name in types or "Exception" in types or "BaseException" in types or any(t in _EXC and isinstance(ex, _EXC[t]) for t in types):
+                        if h.name:
+                            self.env[h.name] = ex
+                        self._handling.append(ex)
+                        try:
+                            self._block(h.body)
+                        finally:
+                            self._handling.pop()
                         break
                 else:
                     raise
@@ -205,6 +239,8 @@ class BlockEval:
                 pass
             elif isinstance(c, ast.Call) and (ast.unparse(c.func).split(".")[0] in ("logging", "logger", "warnings", "print")):
                 pass
+            elif isinstance(c, ast.Call) and isinstance(c.func, ast.Name) and callable(self.env.get(c.func.id)) and c.func.id not in BASE:
+                self.fold(c)  # a rule-supplied callable (stub or evaluated module function) called for its effect on the containers it is handed
             else:
                 raise Unknown(f"statement `{ast.unparse(st)[:50]}`")
         elif isinstance(st, ast.For):
@@ -221,6 +257,53 @@ class BlockEval:
                     raise
             else:
                 self._block(st.orelse)
+        elif isinstance(st, ast.With):
+            # `with <expr> as name:` - only for context managers the rule supplies (a stub marked _blockeval_context, e.g. an opened listing)
+            for item in st.items:
+                v = self.fold(item.context_expr)
+                if not getattr(v, "_blockeval_context", False):
+                    raise Unknown(f"with-statement over `{ast.unparse(item.context_expr)[:40]}`")
+                if item.optional_vars is not None:
+                    self._assign(item.optional_vars, v)
+            self._block(st.body)
+        elif isinstance(st, ast.FunctionDef):
+            # a nested helper: a callable on folded values whose body is evaluated in the enclosing scope as it is at call time
+            a = st.args
+            if st.decorator_list or a.vararg or a.kwarg or a.kwonlyargs or a.posonlyargs or any(isinstance(n, (ast.Nonlocal, ast.Global, ast.Yield, ast.YieldFrom)) for n in ast.walk(st)):
+                raise Unknown(f"nested function `{st.name}`")
+            self.env[st.name] = self._closure(st)
+        elif isinstance(st, ast.Match):
+            subject = self.fold(st.subject)
+            for case in st.cases:
+                binds: Dict[str, Any] = {}
+                if self._match(case.pattern, subject, binds):
+                    saved = {k: self.env[k] for k in binds if k in self.env}
+                    self.env.update(binds)
+                    if case.guard is not None and not self.fold(case.guard):
+                        for k in binds:
+                            self.env.pop(k, None)
+                        self.env.update(saved)
+                        continue
+                    self._block(case.body)
+                    break
+        elif isinstance(st, ast.Raise):
+            # `raise ValueError(...)` of a builtin exception type is the exception itself (selects a handler like one raised by an
+            # interpreted builtin); a bare `raise` in a handler re-raises the exception being handled
+            if st.exc is None:
+                if not self._handling:
+                    raise Unknown("bare raise outside a handler")
+                raise self._handling[-1]
+            f = st.exc.func if isinstance(st.exc, ast.Call) else st.exc
+            if not (isinstance(f, ast.Name) and f.id in _EXC and f.id not in self.env):
+                raise Unknown(f"statement `{ast.unparse(st)[:50]}`")
+            args = []
+            if isinstance(st.exc, ast.Call):
+                for a in st.exc.args:
+                    try:
+                        args.append(self.fold(a))
+                    except Unknown:
+                        args.append("...")
+            raise _EXC[f.id](*args)
         elif isinstance(st, ast.Return):
             raise _Stop("return", self.fold(st.value) if st.value is not None else None)
         elif isinstance(st, ast.Continue):
@@ -231,6 +314,46 @@ class BlockEval:
             pass
         else:
             raise Unknown(f"statement kind {type(st).__name__}")
+
+    def _closure(self, fn: ast.FunctionDef):
+        params = [x.arg for x in fn.args.args]
+        defaults = dict(zip(params[len(params) - len(fn.args.defaults) :], fn.args.defaults))
+        body = [b for b in fn.body if not (isinstance(b, ast.Expr) and isinstance(b.value, ast.Constant))]
+
+        def call(*vals):
+            if len(vals) > len(params):
+                raise TypeError(f"{fn.name}() takes {len(params)} positional arguments but {len(vals)} were given")
+            env = dict(self.env)
+            env.update(zip(params, vals))
+            for p_ in params[len(vals) :]:
+                if p_ not in defaults:
+                    raise TypeError(f"{fn.name}() missing required argument: '{p_}'")
+                env[p_] = self.fold(defaults[p_])
+            sub = BlockEval(self.repo, self.module, env, max_steps=self.max_steps, world=self.world)
+            kind, val = sub.run(body)
+            self.steps += sub.steps
+            return val if kind == "return" else None
+
+        call.__name__ = fn.name
+        return call
+
+    def _match(self, pat: ast.pattern, v: Any, binds: Dict[str, Any]) -> bool:
+        """Literal / singleton / or / capture / wildcard / fixed-length sequence patterns; anything else is not evaluable."""
+        if isinstance(pat, ast.MatchValue):
+            return v == self.fold(pat.value)
+        if isinstance(pat, ast.MatchSingleton):
+            return v is pat.value
+        if isinstance(pat, ast.MatchOr):
+            return any(self._match(p_, v, binds) for p_ in pat.patterns)
+        if isinstance(pat, ast.MatchAs):
+            if pat.pattern is not None and not self._match(pat.pattern, v, binds):
+                return False
+            if pat.name is not None:
+                binds[pat.name] = v
+            return True
+        if isinstance(pat, ast.MatchSequence) and not any(isinstance(p_, ast.MatchStar) for p_ in pat.patterns):
+            return isinstance(v, (list, tuple)) and len(v) == len(pat.patterns) and all(self._match(p_, x, binds) for p_, x in zip(pat.patterns, v))
+        raise Unknown(f"match pattern `{ast.unparse(pat)[:40]}`")
 
     def _aug(self, cur: Any, st: ast.AugAssign) -> Any:
         rhs = self.fold(st.value)
